@@ -64,6 +64,13 @@ func (o *OverlayFS) ReadDir(name string) ([]fs.DirEntry, error) {
 
 	// If no filesystem had this directory, return error
 	if !found && lastErr != nil {
+		// A path that no layer has at all reports not-exist, whatever the layers said about
+		// it (an OS-backed layer answers "not a directory" for a path below one of its files).
+		f, err := o.Open(name)
+		if err != nil {
+			return nil, &fs.PathError{Op: "readdir", Path: name, Err: fs.ErrNotExist}
+		}
+		_ = f.Close()
 		return nil, lastErr
 	}
 
